@@ -401,7 +401,11 @@ def special_items():
     yield Item(["From", "Constructor", "Debug"], "pub struct @N@ { a: %s, b: u8 }" % inf, ("special", "uninhabited-named2", "none", "plain", "-"))
     yield Item(["From", "Display", "Debug", "IsVariant", "Unwrap", "TryUnwrap", "TryInto"], "pub enum @N@ { A(%s), B(u8), C }" % inf, ("special", "uninhabited-variant", "none", "plain", "-"))
     yield Item(["Error", "Display"], '#[display("e")]\npub struct @N@ { source: %s }' % inf, ("special", "uninhabited-source", "none", "plain", "-"), std_derives=["Debug"])
-    yield Item(["Display", "Debug", "From", "IsVariant"], "pub enum @N@ {}", ("special", "empty-enum", "none", "plain", "-"))
+    yield Item(["Display", "Debug", "From", "IsVariant", "FromStr", "TryInto", "Unwrap", "TryUnwrap", "Not", "Neg", "Add", "Error"], "pub enum @N@ {}", ("special", "empty-enum", "none", "plain", "-"), std_derives=[])
+    yield Item(["FromStr", "Display", "IsVariant"], "pub enum @N@ { Only }", ("special", "single-unit-variant", "none", "plain", "-"))
+    yield Item(["FromStr"], "pub enum @N@<const N: usize> { A, B }", ("special", "const-generic-fieldless", "constN", "plain", "-"))
+    yield Item(["TryFrom"], "#[try_from(repr)]\npub enum @N@ {}", ("special", "empty-enum", "none", "plain", "try_from"))
+    yield Item(["TryFrom"], "#[try_from(repr)]\n#[repr(u8)]\npub enum @N@<T> { A(T), B { x: T } }", ("special", "no-fieldless-variant", "T", "plain", "try_from"))
     yield Item(["Display", "Debug"], "pub enum @N@<const N: usize = 3> {}", ("special", "empty-enum", "constN=default", "plain", "-"))
     # ?Sized parameters
     yield Item(["Display", "Debug"], "pub struct @N@<T: ?::core::marker::Sized>(T);", ("special", "unsized-tail", "T:?Sized", "plain", "-"))
